@@ -113,7 +113,7 @@ var allSS = []string{"Compare", "EqualFold", "Index", "Contains", "LastIndex", "
 func (x *Ctx) pairsFor(fns []string, streams []int, n int) {
 	hasIndex := false
 	for _, fn := range fns {
-		if fn == "Index" {
+		if fn == "Index" || fn == "LastIndex" {
 			hasIndex = true
 		}
 	}
